@@ -271,7 +271,8 @@ fn c15_strategy(p: &gen::Profile) -> proptest::strategy::BoxedStrategy<Case> {
                 .map(|(pos, k, it)| {
                     let pos = ((pos as usize) * (n + 1)) >> 16;
                     let k = ((k as u32) * nk) >> 16;
-                    (pos, if it { Op::Iter } else { Op::Contains { k } })
+                    // (the Debug output lists the entries: an iteration through another entry point)
+                    (pos, if it && k % 3 == 2 { Op::DebugFmt } else if it { Op::Iter } else { Op::Contains { k } })
                 })
                 .collect();
             c
